@@ -10,5 +10,11 @@ import vlib
 vlib.build_coq()
 vlib.build_driver()
 vlib.build_harness()
+# warm the Go build cache for the other configurations the checks build (C18: race detector;
+# C20: the tagged builds; C17: the translator), so that their first run does not pay for it
+vlib.build_harness(tags="verif", out="harness_race", extra="-race")
+vlib.build_harness(tags="verif noasm", out="harness_noasm")
+vlib.build_harness(tags="verif inplacetranspose", out="harness_inplacetranspose")
+vlib.sh("timeout 600 go build -o %s ." % os.path.join(vlib.BUILD, "kx"), cwd=os.path.join(vlib.VERIF, "kx"), env=vlib.GOENV)
 print("setup ok")
 PY
